@@ -1706,6 +1706,8 @@ def run(ctx, drv, search=False):
     # exhaustive object-like tables (the fragment the simulation theorem covers)
     run_exhaustive(ctx, drv, cb, ctx.thorough())
     ctx.exhaustive = True
+    from . import c03_strconf  # `#` against the specification: Props/C03StrConf.lean on the real code
+    c03_strconf.run(ctx, drv, cb)
     # random tables x invocations
     n = ctx.n(12000, 40000)
     if search:
@@ -1796,6 +1798,9 @@ def replay_history(ctx, drv, cb, case):
 
 def replay(ctx, drv, case):
     cb = core.import_codebasin()
+    if "strconf" in case:
+        from . import c03_strconf
+        return c03_strconf.replay(ctx, drv, case)
     if "history" in case or str(case.get("origin", "")).startswith("history-find"):
         return replay_history(ctx, drv, cb, case)
     if "define" in case:
